@@ -79,7 +79,7 @@ def mkframe(s):
 
 PERTURBATIONS = ["in_port", "dl_src", "dl_dst", "dl_vlan", "dl_vlan_untag", "dl_vlan_pcp", "dl_type", "nw_tos",
                  "nw_proto", "nw_src_in", "nw_src_out", "nw_dst_in", "nw_dst_out", "nw_src_hi", "nw_dst_hi",
-                 "tp_src", "tp_dst", "frag_mf", "frag_off", "ecn"]
+                 "tp_src", "tp_dst", "frag_mf", "frag_off", "ecn", "snap_oui"]
 
 
 def perturb(spec, in_port, what, ps=32, pd=32):
@@ -159,6 +159,10 @@ def perturb(spec, in_port, what, ps=32, pd=32):
       return None
     k = "sport" if what == "tp_src" else "dport"
     s[k] = s.get(k, 1000 if k == "sport" else 2000) ^ 1
+  elif what == "snap_oui":
+    if s.get("l2") != "snap":
+      return None
+    s["oui"] = s.get("oui", 0) ^ 0x00000c
   elif what == "frag_mf":
     if l3 != "ip":
       return None
@@ -189,6 +193,9 @@ CATALOG = [
   ("snap-other", {"l2": "snap", "l3": "raw", "etype": 0x809b, "pay": 12}),
   ("icmp-vlan-opts", {"l3": "ip", "l4": "icmp", "vlan": [6, 2000], "nopts": 1, "ip_src": 0xc6336401, "ip_dst": 0xcb007101,
                       "sport": 3, "dport": 1, "pay": 8, "tos": 0xe0}),
+  ("snap-oui-cdp", {"l2": "snap", "l3": "raw", "etype": 0x2000, "oui": 0x00000c, "pay": 12, "dst": 0x01000ccccccc}),
+  ("snap-oui-ip", {"l2": "snap", "l3": "ip", "l4": "udp", "oui": 0x080007, "ip_src": 0x0a00000c, "ip_dst": 0x0a00000d,
+                   "sport": 68, "dport": 67}),
   ("qinq", {"l3": "ip", "l4": "udp", "vlan": [2, 10], "vlan2": [3, 20]}),
 ]
 CATALOG_BY_NAME = dict(CATALOG)
